@@ -71,3 +71,5 @@ def run(ctx):
     ctx.coverage["distinct_nontrivial"] = pairs
     ctx.coverage["rule"] = ("for each seeded model+seed: 6 configurations (threads, checkpoint interval, GVT period, schedule) + 1 repetition; "
                             "non-trivial = pairs of completed runs whose per-LP final state digests (RNG words included) were compared")
+    # refinement of the concrete kernel to the abstract global Time Warp machine of the glue theorems, checked on small runs
+    runlib.tw_matrix(ctx, 12, 400, salt=9)
